@@ -110,6 +110,8 @@ func fieldAccesses(f *ssa.Function, want func(*types.Var) bool) []access {
 						out = append(out, access{Field: fv, Base: i.X, Instr: r, Kind: "load"})
 						// writes through the loaded map / slice value
 						out = append(out, derivedWrites(fv, i.X, r)...)
+						// reads of the contents of a loaded map / slice (the contents are as shared as the field)
+						out = append(out, derivedReads(fv, i.X, r)...)
 						continue
 					}
 					out = append(out, access{Field: fv, Base: i.X, Instr: r, Kind: "addr"})
@@ -162,6 +164,55 @@ func derivedWrites(fv *types.Var, base ssa.Value, load *ssa.UnOp) []access {
 						}
 					}
 				}
+			}
+		}
+	}
+	return out
+}
+
+// derivedReads finds reads of the contents of a loaded map or slice field
+// value: m[k], range m (each Next), s[i].
+func derivedReads(fv *types.Var, base ssa.Value, load *ssa.UnOp) []access {
+	switch load.Type().Underlying().(type) {
+	case *types.Map, *types.Slice:
+	default:
+		return nil
+	}
+	var out []access
+	refs := load.Referrers()
+	if refs == nil {
+		return nil
+	}
+	for _, r := range *refs {
+		switch r := r.(type) {
+		case *ssa.Lookup:
+			if r.X == load {
+				out = append(out, access{Field: fv, Base: base, Instr: r, Kind: "load"})
+			}
+		case *ssa.Range:
+			if r.X == load {
+				out = append(out, access{Field: fv, Base: base, Instr: r, Kind: "load"})
+				if rr := r.Referrers(); rr != nil {
+					for _, n := range *rr {
+						if nx, ok := n.(*ssa.Next); ok {
+							out = append(out, access{Field: fv, Base: base, Instr: nx, Kind: "load"})
+						}
+					}
+				}
+			}
+		case *ssa.IndexAddr:
+			if r.X == load {
+				if rr := r.Referrers(); rr != nil {
+					for _, u := range *rr {
+						if ld, ok := u.(*ssa.UnOp); ok && ld.Op == token.MUL {
+							out = append(out, access{Field: fv, Base: base, Instr: ld, Kind: "load"})
+						}
+					}
+				}
+			}
+		case *ssa.Index:
+			if r.X == load {
+				out = append(out, access{Field: fv, Base: base, Instr: r, Kind: "load"})
 			}
 		}
 	}
